@@ -20,6 +20,7 @@ const basePreamble = `(set-option :produce-models true)
 (define-fun fld ((r Ref) (i Int)) Ref (mkref (rb r) (pf (rp r) i)))
 (define-fun idx ((r Ref) (i Int)) Ref (mkref (rb r) (pi (rp r) i)))
 (define-fun nilslice () Slice (mkslice null 0 0 0))
+(declare-fun anchor (Ref) Bool)
 (declare-fun sidx (Slice Int) Ref)
 (assert (forall ((s Slice) (i Int)) (! (= (sidx s i) (idx (sarr s) (+ (soff s) i))) :pattern ((sidx s i)))))
 (declare-sort Str 0)
